@@ -103,6 +103,28 @@ def impl_layer() -> None:
     expect("TraceBackwardImpl stops at the corrupted stage (Aggregate)", "Aggregate" not in st.get(2, set()) and "Jac" in st.get(2, set()))
 
 
+def impl_layer_mtl() -> None:
+    from .stage_trace import record_mtl
+    res = run_tlc("MtlBackward", "MC_MtlBackward_quick.cfg", workers=4, timeout=1500)
+    scns = [s for s in res.prints["SCN"] if s["shared"]][:30]
+    rng = random.Random(2)
+    eps = []
+    for s in scns:
+        e = record_mtl(s, rng, len(eps) + 1)
+        if e and "missing_stage" not in e:
+            eps.append(e)
+    r = run_trace("TraceMtlImpl", "Trace_MtlImpl.cfg", eps)
+    done = {m["ep"] for m in r.prints.get("STAGE", []) if m["stage"] == "Accumulate"}
+    expect("TraceMtlImpl explains every recorded mtl pipeline", done == {e["ep"] for e in eps}, f"{len(eps)} episodes")
+    bad = copy.deepcopy(eps)
+    bad[0]["after_stack"][0]["v"][0][0] += 1
+    r = run_trace("TraceMtlImpl", "Trace_MtlImpl.cfg", bad)
+    st = {}
+    for m in r.prints.get("STAGE", []):
+        st.setdefault(m["ep"], set()).add(m["stage"])
+    expect("TraceMtlImpl stops at the corrupted stage (Stack)", "Stack" not in st.get(1, set()) and "Task" in st.get(1, set()))
+
+
 def model_mutations() -> None:
     src = (SPEC_DIR / "JacChunks.tla").read_text()
     mut = src.replace("[rows |-> r, vmap |-> (r > 1),\n                                        retain |-> IF last THEN retainCaller ELSE TRUE]",
@@ -138,6 +160,7 @@ def main(argv: list[str]) -> int:
     jacchunks()
     backward_traces()
     impl_layer()
+    impl_layer_mtl()
     model_mutations()
     bad = [n for n, ok, _ in RESULTS if not ok]
     print(f"selftest: {len(RESULTS) - len(bad)}/{len(RESULTS)} expectations hold")
